@@ -130,7 +130,40 @@ def ruleset_settings_text(ctx):
     ctx.floor("ruleset_text_settings", 4, "text settings assigned in parseRuleset (post_action_delay, prekill_hook_timeout, silence-logs, cgroup, ...)")
 
 
+def one_name_per_destination(ctx):
+    """Shared by C01 and C12: every plugin member is the destination of one argument name.  (For the kill plugins: `recursive`, `cgroup`,
+    `always_continue`, `dry` ... each land in their own member - a name bound to a neighbour's member switches that neighbour's
+    behaviour on, e.g. always_continue=true making the plugin descend as if recursive were set.)"""
+    P = ctx.prog
+    # ------------------------------------------------ (iv-a) one destination, one argument name: PluginArgParser::parse fills values in the
+    # iteration order of an unordered_map, so two names bound to the same member make the result depend on the hash order
+    n_dest = 0
+    for f in sorted(P.fns.values(), key=lambda x: (x.file, x.line)):
+        regs = [i for i in f.calls("PluginArgParser::addArgument", "PluginArgParser::addArgumentCustom") if len(f.nodes[i].get("args", [])) >= 2]
+        if not regs:
+            continue
+        by_dest = {}
+        for i in regs:
+            a = f.nodes[i]["args"]
+            by_dest.setdefault(f.text(a[1]), []).append((f.text(a[0]), i))
+        for dest, lst in by_dest.items():
+            n_dest += 1
+            names = sorted({nm for nm, _ in lst})
+            if len(lst) > 1:
+                ctx.violation("one-name-per-destination:%s:%s" % (short(f), dest), "table (argument name -> destination)", f.loc(lst[1][1]),
+                              "%s is the destination of %d registrations (%s): when both names are given the stored value is whichever the unordered "
+                              "argument map yields last, not the documented one" % (dest, len(lst), ", ".join(names)))
+    ctx.counters["argument_destinations"] = n_dest
+    ctx.floor("argument_destinations", 40, "distinct (init, destination) pairs registered with PluginArgParser")
+    ctx.ok("one-name-per-destination", "table (argument name -> destination)", "-", "%d destinations, each registered once" % n_dest)
+
+
 def run(ctx):
+    from .C13 import dropin_unit_holds_merged_targets
+    dropin_unit_holds_merged_targets(ctx)
+    size_components_kept_in_double(ctx, "C12")
+    from .C13 import merge_writes_only_overridable_parts
+    merge_writes_only_overridable_parts(ctx)
     ruleset_settings_text(ctx)
     # locals / parameters the rules below refer to by name (a rename makes the analysis 'broken', never a violation)
     ctx.anchor(ctx.fn1('Oomd::Util::parseSize'), 'v')
@@ -341,27 +374,7 @@ def run(ctx):
                   "the result '%s' divides before it multiplies/adds: the truncated remainder is lost, so 'N%%' of a total that is not a multiple of the "
                   "divisor is up to N bytes-per-cent too low (thresholds no longer act at the configured value)" % pp.text(pp.nodes[i]["r"])[:80])
     init_results_checked(ctx, "C12")
-    # ------------------------------------------------ (iv-a) one destination, one argument name: PluginArgParser::parse fills values in the
-    # iteration order of an unordered_map, so two names bound to the same member make the result depend on the hash order
-    n_dest = 0
-    for f in sorted(P.fns.values(), key=lambda x: (x.file, x.line)):
-        regs = [i for i in f.calls("PluginArgParser::addArgument", "PluginArgParser::addArgumentCustom") if len(f.nodes[i].get("args", [])) >= 2]
-        if not regs:
-            continue
-        by_dest = {}
-        for i in regs:
-            a = f.nodes[i]["args"]
-            by_dest.setdefault(f.text(a[1]), []).append((f.text(a[0]), i))
-        for dest, lst in by_dest.items():
-            n_dest += 1
-            names = sorted({nm for nm, _ in lst})
-            if len(lst) > 1:
-                ctx.violation("one-name-per-destination:%s:%s" % (short(f), dest), "table (argument name -> destination)", f.loc(lst[1][1]),
-                              "%s is the destination of %d registrations (%s): when both names are given the stored value is whichever the unordered "
-                              "argument map yields last, not the documented one" % (dest, len(lst), ", ".join(names)))
-    ctx.counters["argument_destinations"] = n_dest
-    ctx.floor("argument_destinations", 40, "distinct (init, destination) pairs registered with PluginArgParser")
-    ctx.ok("one-name-per-destination", "table (argument name -> destination)", "-", "%d destinations, each registered once" % n_dest)
+    one_name_per_destination(ctx)
     # ------------------------------------------------ (iv) parser / destination agreement
     n_reg = 0
     for f in P.fns.values():
